@@ -404,6 +404,24 @@ func c05PacketPSI(res *engine.Result, in []byte) {
 	}
 }
 
+// c05Packetise carries a byte string as the payload of consecutive packets of PID 0x64 (the last one padded
+// with 0xFF), unit start on the first.
+func c05Packetise(in []byte) []*packet.Packet {
+	var pkts []*packet.Packet
+	for off, i := 0, 0; off < len(in); off, i = off+184, i+1 {
+		p := &packet.Packet{0x47, 0x00, 0x64, byte(0x10 | i&0x0f)}
+		if i == 0 {
+			p[1] |= 0x40
+		}
+		for j := 4; j < 188; j++ {
+			p[j] = 0xFF
+		}
+		copy(p[4:], in[off:min(len(in), off+184)])
+		pkts = append(pkts, p)
+	}
+	return pkts
+}
+
 type c05Sink struct{ n int }
 
 func (s *c05Sink) WritePacket(p *packet.Packet) (int, error) { s.n++; return packet.PacketSize, nil }
@@ -552,6 +570,37 @@ func init() {
 			c05PMT(res, pmt)
 		}
 	}})
+	// the filter on a PMT PID's whole payload: the byte string is cut into 184-byte payloads of one PID
+	add(c05Entry{name: "psi.FilterPMTPacketsToPids(payload)", kind: kindBytes, readOnly: true, seeds: "pmt", longs: true, run: func(res *engine.Result, in []byte) {
+		if len(in) == 0 {
+			return
+		}
+		pkts := c05Packetise(in)
+		snap := make([]packet.Packet, len(pkts))
+		for i, p := range pkts {
+			snap[i] = *p
+		}
+		lists := [][]int{{0x65, 0x66}}
+		if pmt, err := psi.NewPMT(in); err == nil && pmt != nil {
+			if ps := pmt.Pids(); len(ps) > 0 {
+				lists = append(lists, append([]int{}, ps...), []int{ps[len(ps)-1], 0x1FF0})
+			}
+		}
+		for _, l := range lists {
+			g(res, "psi.FilterPMTPacketsToPids(payload)", func() {
+				out, _ := psi.FilterPMTPacketsToPids(pkts, l)
+				if len(out) > len(pkts) {
+					res.Failf("psi.FilterPMTPacketsToPids(payload)|more-packets-out-than-in", "%d packets in, %d out", len(pkts), len(out))
+				}
+			})
+		}
+		for i, p := range pkts {
+			if *p != snap[i] {
+				res.Failf("psi.FilterPMTPacketsToPids(payload)|read-only|packet-modified", "input packet %d modified", i)
+				break
+			}
+		}
+	}})
 	add(c05Entry{name: "psi.NewPmtDescriptor", kind: kindBytes, readOnly: true, seeds: "descriptor", run: func(res *engine.Result, in []byte) {
 		if len(in) == 0 {
 			return
@@ -609,7 +658,7 @@ func init() {
 	add(c05Entry{name: "packet-modifiers", kind: kindPacket, readOnly: false, seeds: "packet", run: c05PacketModifiers})
 	add(c05Entry{name: "packet-psi", kind: kindPacket, readOnly: true, seeds: "packet", run: c05PacketPSI})
 	add(c05Entry{name: "stream-readers", kind: kindStream, readOnly: true, seeds: "stream", run: c05Streams})
-	engine.RegisterIsolated("C05", "short-strings", "seed-mutations", "seed-double-mutations", "long-inputs", "packet-grid", "stream-sequences", "generated-scte35", "generated-pmt")
+	engine.RegisterIsolated("C05", "short-strings", "seed-mutations", "seed-double-mutations", "long-inputs", "packet-grid", "stream-sequences", "generated-scte35", "generated-pmt", "periodic-long-payloads")
 }
 
 func c05EntryByName(n string) *c05Entry {
@@ -993,6 +1042,8 @@ func c05Check(c c05Case) engine.Result {
 				}
 			}
 		}
+	case "gen-periodic":
+		c05Exec(&res, e, c05Periodic(c.A, c.B), &scratch)
 	case "grid":
 		// A = adaptation_field_control (0..3), B = adaptation_field_length; all 256 flag bytes x length bytes
 		var p [188]byte
@@ -1357,6 +1408,15 @@ func c05Gen(family string) func(r *engine.Run, emit func(c05Case)) {
 						emit(c05Case{Entry: e.name, Family: "gen-pmt", A: a, B: d})
 					}
 				}
+			case "gen-periodic":
+				if !e.longs || (e.seeds != "pmt" && e.name != "psi.PmtAccumulatorDoneFunc") {
+					continue
+				}
+				for a := 0; a < c05PeriodicCount; a++ {
+					for b := 0; b < 8; b++ {
+						emit(c05Case{Entry: e.name, Family: "gen-periodic", A: a, B: b})
+					}
+				}
 			case "gen-scte35":
 				if e.name != "scte35.NewSCTE35" {
 					continue
@@ -1392,6 +1452,63 @@ func c05Gen(family string) func(r *engine.Run, emit func(c05Case)) {
 	}
 }
 
+// Periodic long payloads: pointer_field 0 | a first section (table_id t, section_length 0..8, content 00) |
+// a well-formed PMT section with one stream (PID 0x65) | 0xFF, and - laid over that - a chain of elementary-
+// stream entries of constant step P (ES_info_length P-5) that starts where a reader that takes the first
+// section for a PMT begins its stream loop. A cursor of fewer bits than the input needs cycles through the
+// same entries for ever when P divides 2^16. B shifts the chain start by changing the PCR_PID of the PMT.
+var c05PeriodicSteps = []int{16, 256, 4096, 5}
+var c05PeriodicLens = []int{4096, 65504, 65688, 66240}
+var c05PeriodicTids = []byte{0x00, 0x42, 0x02}
+
+const c05PeriodicCount = 9 * 3 * 4 * 4 * 3
+
+func c05Periodic(a, b int) []byte {
+	sl := a % 9
+	a /= 9
+	tid := c05PeriodicTids[a%3]
+	a /= 3
+	step := c05PeriodicSteps[a%4]
+	a /= 4
+	L := c05PeriodicLens[a%4]
+	a /= 4
+	wanted := a % 3 // 0: no entry carries the PID of the PMT's stream, 1: the last entry before the 64 KiB mark, 2: every entry
+	in := make([]byte, L)
+	for i := range in {
+		in[i] = 0xFF
+	}
+	in[0] = 0
+	first := append([]byte{tid, 0x00, byte(sl)}, make([]byte, sl)...)
+	pcr := 0x65 + b*37
+	sec := []byte{0x02, 0xB0, 0x12, 0x00, 0x01, 0xC1, 0x00, 0x00, 0xE0 | byte(pcr>>8), byte(pcr), 0xF0, 0x00,
+		0x1B, 0xE0, 0x65, 0xF0, 0x00}
+	sec = ref.WithCRC(sec)
+	copy(in[1:], first)
+	copy(in[1+len(first):], sec)
+	body := in[1:]
+	if len(body) < 12 {
+		return in
+	}
+	start := 12 + (int(body[10]&0x0F)<<8 | int(body[11]))
+	if start < len(first)+len(sec) {
+		start += ((len(first) + len(sec) - start + step - 1) / step) * step
+	}
+	n := 0
+	for off := start; off+5 <= len(body); off += step {
+		n++
+	}
+	k := 0
+	for off := start; off+5 <= len(body); off, k = off+step, k+1 {
+		pid := 0x66
+		if wanted == 2 || (wanted == 1 && off+step > 65535-5 && off <= 65535) || (wanted == 1 && k == n-1) {
+			pid = 0x65
+		}
+		il := step - 5
+		copy(body[off:], []byte{0x1B, 0xE0 | byte(pid>>8), byte(pid), 0xF0 | byte(il>>8), byte(il)})
+	}
+	return in
+}
+
 func c05Scenario(name, family, rule string) *engine.Isolated[c05Case] {
 	return &engine.Isolated[c05Case]{
 		Enum: engine.Enum[c05Case]{Name: name, Rule: rule, Gen: c05Gen(family), Check: c05Check, Batch: 1},
@@ -1409,6 +1526,7 @@ func init() {
 			c05Scenario("long-inputs", "long", "index-wraparound family: for every seed and every cut position up to 24 (thorough 40), the valid prefix is extended with each of 6 fills (00, 80, 90, FF, (01 FC)*, (01 00)*) to total lengths {255,256,257,300} and, for the SCTE-35/PMT/accumulator-predicate entry points, {4096,65535,65536,65537,65545,65600}, each also with 0xFFFF planted at every 2-byte position before the cut (makes 8-/16-bit cursors and length fields wrap; at 65600 bytes also 0xFFFE and 0xFFFC, which 64 KiB of two-byte items satisfy exactly); plus two-segment tails (a run of 80/90/FF ending at every position 243..258 followed by 00/10/7F, total 300 bytes) for chains that end next to the 8-bit cursor limit."+common),
 			c05Scenario("generated-scte35", "gen-scte35", "structure-aware SCTE-35 inputs built by the reference encoder with all lengths and the CRC consistent: every descriptor-loop shape of <=3 descriptors over {segmentation, foreign tag 00, foreign tag 01} x 46 UPID/MID variants of the segmentation descriptors (none, single ADI, MIDs of 1..3 entries, stream-switch style MIDs whose ADI text is one of {BLACKOUT, BLACKOUT:, BLACKOUT:abc, xxBLACKOUT, empty, BLACKOUT:BLACKOUT, BLACKOU} and whose ADS text matches / contains / lacks the rotation keyword, delivery restricted or not); each section whole and cut at every byte; all getters incl. StreamSwitchSignalId, the state tracker, String and re-encoding run on whatever decodes."+common),
 			c05Scenario("generated-pmt", "gen-pmt", "structure-aware PMT inputs: 4 reference-built tables x every combination of deltas on four RELATED length fields (section_length -8..+8, program_info_length -3..+3, ES_info_length of the last described stream -6..+6, its last descriptor_length -4..+4), each with the stale CRC_32 and with a CRC_32 recomputed where the new section_length puts it; run through NewPMT (all getters, printers), the accumulator completion predicate and ExtractCRC."+common),
+			c05Scenario("periodic-long-payloads", "gen-periodic", "cursor-cycle family for the PMT entry points that take a whole PID payload (NewPMT, the accumulator completion predicate, FilterPMTPacketsToPids on the payload cut into 184-byte packets): pointer_field 0 | a first section with table_id {00, 42, 02} and section_length 0..8 | a well-formed one-stream PMT section | 0xFF, overlaid with a chain of elementary-stream entries of constant step {16, 256, 4096 (divisors of 2^16: a 16-bit cursor cycles), 5} that starts where a reader taking the first section for the PMT starts its stream loop (8 start phases through the PCR_PID), total lengths {4096, 65504, 65688, 66240} (356/357/360 packets), the stream PID of the PMT carried by no entry / the last entry before the 64 KiB mark and the last one / every entry; request lists: {0x65,0x66}, all PIDs NewPMT reports, one present + one absent; additionally at most as many packets out as in and input packets unchanged."+common),
 			c05Scenario("packet-grid", "grid", "packet accessors, modifiers and packet-level PSI helpers on packets with adaptation_field_control 0..3 x adaptation_field_length from 30 boundary values (thorough: all 256) x all 256 flag bytes x private-data length and extension length bytes from {00,01,7F,B0,FF} plus the four values around 'ends exactly on the last byte of the packet' for the given flags, placed where the flags put them."+common),
 			c05Scenario("stream-sequences", "streamseq", "stream readers (Sync, IsSynced, ReadPAT, ReadPMT, IOWriter Write/ReadFrom, the cli pipeline) on every sequence of <=3 packets from a 14-packet alphabet (good PAT/PMT, PMT split 3+rest, null, and single-field corruptions: section_length 0x3FF, pointer_field 0xFF, ES_info_length/program_info_length 0xFFF, adaptation_field_length 0xFF/183, AF-only, no sync byte), whole and — for sequences of <=2 (quick: a subset) — cut at every byte length; default and one-byte-at-a-time readers."+common),
 		},
